@@ -152,26 +152,4 @@ theorem mergeClass_parts {c s r : Class} (h : mergeClass c s = ok r) :
   subst hr
   exact ⟨hf, hm, hi, rfl, rfl, rfl, rfl, rfl, rfl, rfl, rfl, rfl, rfl⟩
 
-/-! ### the class merge never panics when everything asserted agrees -/
-
-theorem mergeClass_noPanic {c s : Class} (h : noPanicB c s = true) :
-    mergeClass c s = err ∨ ∃ r, mergeClass c s = ok r := by
-  unfold noPanicB at h
-  simp only [Bool.and_eq_true, beq_iff_eq] at h
-  obtain ⟨⟨⟨⟨⟨⟨h1, h2⟩, h5⟩, h6⟩, hf⟩, hm⟩, hi⟩ := h
-  obtain ⟨f, hf⟩ := mergeMembers_total hf
-  obtain ⟨m, hm⟩ := mergeMembers_total hm
-  obtain ⟨inn, hi⟩ := mergeInners_total hi
-  unfold mergeClass
-  by_cases hn : c.name = s.name
-  · by_cases hs : c.super = s.super
-    · right
-      simp [mergeFromClient, mergeEq, h1, h2, hn, hs, h5, h6, hf, hm, hi]
-    · left
-      have : (c.super != s.super) = true := by simpa using hs
-      simp [mergeFromClient, mergeEq, h1, h2, hn, this]
-  · left
-    have : (c.name != s.name) = true := by simpa using hn
-    simp [mergeFromClient, mergeEq, h1, h2, this]
-
 end MergeJar
